@@ -13,6 +13,7 @@ import HT.Model.Identity
 import HT.Model.Agent
 import HT.Model.Ipp
 import HT.Model.Proto
+import HT.Model.Iso
 /-!
 Line-protocol driver: one case per input line, `<model> <args…>`; one output line
 per case.  Core Lean only (so it links as an executable).
@@ -40,6 +41,7 @@ def dispatch (line : String) : String :=
   | "agent" :: args => Agent.driver args
   | "ipp" :: args => Ipp.driver args
   | "seg" :: args => Proto.driver args
+  | "iso" :: args => Iso.driver args
   | _ => "bad-model"
 
 partial def loop (h : IO.FS.Stream) (out : IO.FS.Stream) : IO Unit := do
